@@ -367,7 +367,7 @@ func cmdProp(args []string) {
 	// expected counts guard
 	if exp := loadExpected(filepath.Join(*verif, "expected_counts.json")); exp != nil {
 		if want, ok := exp[*id]; ok && violations == 0 {
-			if len(names) < want*8/10 {
+			if len(names) < want/2 {
 				violations++
 				rp := writeReplay(replayDir, "count_drop", map[string]interface{}{"property": *id, "error": fmt.Sprintf("only %d distinct obligations generated, expected about %d", len(names), want)})
 				fmt.Printf("VIOLATION property=%s replay=%s obligation=engine:count_drop no-failing-input-found\n", *id, rp)
